@@ -9,6 +9,8 @@ PROGRAMS = 4            # to, conv, toto, strto  (+ receiver alone + receiver.to
 def run(ctx):
     binary = D.build_harness(ctx, "c13")
     D.stage_spec(ctx)
+    if getattr(ctx, "replay", None):
+        return replay(ctx, binary)
     thorough = ctx.tier == "thorough"
     # roles 1 + 2: the conversion laws on every (pool item, target) pair; one case per explored pair
     mc = D.model_check(ctx, "C13_MC", "C13_mc_thorough.cfg" if thorough else "C13_mc_quick.cfg")
@@ -101,3 +103,36 @@ def corrupt_probe(ctx, obs):
     if bad != sorted(p["id"] for p in probes):
         raise D.Inconclusive("corrupted-record probe: judge rejected %s, expected exactly the three corrupted records" % bad)
     ctx.extra["corrupted_record_rejected"] = True
+
+
+def replay(ctx, binary):
+    """bin/check C13 --replay <file>: re-execute the single case of a replay file against the current tree and re-judge it."""
+    import json
+    rec = json.load(open(ctx.replay))
+    o = rec.get("observation")
+    if not o:
+        raise D.Inconclusive("replay file has no observation")
+    case = {"id": o["cid"], "T": o["T"], "sk": o["sk"], "fk": o["fk"], "x": o["x"], "ra": o["ra"], "rc": o["rc"],
+            "progs": [{"p": o["prog"], "sfx": o["sfx"]}]}
+    D.write_ndjson(ctx.path("cases.ndjson"), [case])
+    D.run_harness(ctx, binary, ["run", ctx.path("cases.ndjson"), ctx.path("obs.ndjson")])
+    obs = D.read_ndjson(ctx.path("obs.ndjson"))
+    verdicts = D.judge(ctx, "C13_Judge", "C13_judge.cfg", ctx.path("obs.ndjson"))
+    D.check_complete(verdicts, obs)
+    known = D.load_known(ctx.prop)
+    by_id = {x["id"]: x for x in obs}
+    rc = 0
+    for v in verdicts:
+        ob = by_id[v["id"]]
+        if v["ok"]:
+            print("REPLAY ok: %s -> %s" % (ob["src"], json.dumps(ob["out"])[:300]))
+        elif v["sig"].startswith("malformed|"):
+            raise D.Inconclusive("replayed record is malformed: " + v["sig"])
+        else:
+            k = D.match_known(known, v["sig"])
+            print("%s property=C13 %s\n  signature: %s\n  observed: src=%s out=%s\n  specification permits: %s" % (
+                "KNOWN-FINDING:" if k else "VIOLATION", "(replay) " + (k["what"] if k else "replay=" + ctx.replay), v["sig"],
+                json.dumps(ob["src"]), json.dumps(ob["out"])[:300], json.dumps(v.get("want"))[:300]))
+            if not k:
+                rc = 1
+    return rc
